@@ -91,6 +91,9 @@ pub fn run(tape: &[u8], ctx: &mut Ctx) {
 		let mut st = DeserializerState::from_reader(rd, &case.crate_schema);
 		let r = cctx.seed(&case.schema).deserialize(st.deserializer());
 		let rd = st.into_reader().into_inner();
+		if rd.over_consumed {
+			ctx.violation("C12/bufread-over-consume", format!("schema {} bytes {} ignoring node {n} ({sk_kind:?}) chunk {k}: consume() called with more than fill_buf() exposed", case.json, hex(&bytes)));
+		}
 		match r {
 			Ok(v) => {
 				if !v.same(&expected) {
